@@ -4,7 +4,7 @@
 (* program `prog`; all runs of the same program -- whatever the thread count,    *)
 (* schedule or mode -- must report the same sequences (the outcome is a          *)
 (* function of the input alone).  The first run of a program fixes the outcome.  *)
-EXTENDS Naturals, Sequences, Json, IOUtils, TLC
+EXTENDS Integers, Sequences, Json, IOUtils, TLC
 Tr == ndJsonDeserialize(IOEnv.TRACE)
 VARIABLES l, prog, outcome
 vars == <<l, prog, outcome>>
